@@ -30,6 +30,12 @@ def build(ctx, mod):
             ctx.fail("model-build", "model/driver no longer builds against the regenerated definitions",
                      errors=common.lean_errors(out))
         target = f"EbisimProofs.Props.{ctx.pid}"
+        if getattr(mod, "LEVEL", "proof") == "translation_validation":
+            # no theorem of its own: the Lean model (built above) is the pivot of a differential comparison
+            info["proofs"] = True
+            info["checker_cmd"] = "cd lean && lake build EbisimModel driver"
+            info["build_s"] = round(time.time() - t0, 1)
+            return info
         okp, out, _ = common.lake_build([target])
         info["proofs"] = okp
         info["checker_cmd"] = f"cd lean && lake build {target} && lake env lean EbisimProofs/Audit/{ctx.pid}.lean"
